@@ -550,9 +550,29 @@ def m_callable(ctx, interp, args, kwargs):
 
 
 def m_round(ctx, interp, args, kwargs):
-    if contains_sym(args):
-        raise Unsupported("round() of symbolic value")
-    return round(*args)
+    if not contains_sym(args) and not contains_sym(kwargs):
+        try:
+            return round(*args, **kwargs)
+        except Exception as e:
+            raise SymRaise(e)
+    if len(args) == 1 and not kwargs:
+        v = args[0]
+        if isinstance(v, SInt):
+            return v
+        if isinstance(v, SFP):
+            t = v.term
+            if ctx.branch(z3.Or(z3.fpIsNaN(t), z3.fpIsInf(t))):
+                raise SymRaise(ValueError("cannot convert float NaN/infinity to integer"))
+            r = z3.fpRoundToIntegral(z3.RNE(), t)     # round-half-even, as Python 3
+            return SInt(z3.BV2Int(z3.fpToSBV(z3.RTZ(), r, z3.BitVecSort(72)), True))
+        if isinstance(v, SReal):
+            x = v.term
+            fl = z3.ToInt(x)
+            frac = x - z3.ToReal(fl)
+            half = z3.RealVal("1/2")
+            up = z3.Or(frac > half, z3.And(frac == half, fl % 2 == 1))
+            return SInt(z3.If(up, fl + 1, fl))
+    raise Unsupported("round() of symbolic value with ndigits")
 
 
 def m_ord(ctx, interp, args, kwargs):
